@@ -240,9 +240,19 @@ Section Needed.
         lia.
   Qed.
 
+  Lemma iter_fix_eq : forall k acc, iter_fix k round acc = iter k round acc.
+  Proof.
+    induction k as [|k IH]; intros acc; cbn [iter_fix iter]; [reflexivity|].
+    destruct (length (round acc) =? length acc)%nat eqn:E; [|apply IH].
+    apply Nat.eqb_eq in E. unfold round, needed_round in E. fold (sel acc) in E. rewrite app_length in E.
+    assert (Hs : sel acc = []) by (destruct (sel acc); [reflexivity|cbn [length] in E; lia]).
+    pose proof (sel_nil_closed acc Hs) as Hc.
+    rewrite (round_closed_id acc Hc). symmetry. apply iter_closed_id. exact Hc.
+  Qed.
+
   Lemma needed_set_closed : closed (needed_set g r0 outs).
   Proof.
-    unfold needed_set. fold round.
+    unfold needed_set. fold round. rewrite iter_fix_eq.
     destruct (iter_count (S (num_ops g)) [] (NoDup_nil _) (fun x (H : In x []) => match H with end)) as [Hnd [Hi [Hc|Hl]]]; [exact Hc|exfalso].
     pose proof (NoDup_incl_length Hnd Hi) as Hle. unfold num_ops in *. cbn [length] in Hl. lia.
   Qed.
@@ -250,7 +260,7 @@ Section Needed.
   Lemma needed_set_iff o : In o (needed_set g r0 outs) <-> needed g r0 outs o.
   Proof.
     split.
-    - unfold needed_set. fold round. apply iter_round_sound. intros p [].
+    - unfold needed_set. fold round. rewrite iter_fix_eq. apply iter_round_sound. intros p [].
     - apply closed_needed. apply needed_set_closed.
   Qed.
 End Needed.
@@ -407,6 +417,16 @@ Section Comp.
         lia.
   Qed.
 
+  Lemma citer_fix_eq : forall k fired, iter_fix k round fired = iter k round fired.
+  Proof.
+    induction k as [|k IH]; intros fired; cbn [iter_fix iter]; [reflexivity|].
+    destruct (length (round fired) =? length fired)%nat eqn:E; [|apply IH].
+    apply Nat.eqb_eq in E. unfold round, comp_round in E. fold (sel fired) in E. rewrite app_length in E.
+    assert (Hs : sel fired = []) by (destruct (sel fired); [reflexivity|cbn [length] in E; lia]).
+    pose proof (csel_nil_closed fired Hs) as Hc.
+    rewrite (cround_closed_id fired Hc). symmetry. apply citer_closed_id. exact Hc.
+  Qed.
+
   Let final := iter (S (num_ops g)) round [].
 
   Lemma final_closed : cclosed final.
@@ -418,7 +438,7 @@ Section Comp.
 
   Lemma computable_in_set v : computable g am r0 v -> dep_okb g am (computable_set g am r0) v = true.
   Proof.
-    unfold computable_set. fold round. fold final.
+    unfold computable_set. fold round. rewrite citer_fix_eq. fold final.
     induction 1 as [v Hv|v Ham Hs|v o n Hs Hd IH]; unfold dep_okb.
     - apply resolved_contains_iff in Hv. apply orb_true_iff. left. apply resolved_contains_iff.
       destruct Hv as [Hv|Hv]; [left; unfold res_of; apply in_or_app; right; exact Hv|right; exact Hv].
@@ -433,7 +453,7 @@ Section Comp.
 
   Lemma in_set_computable v : dep_okb g am (computable_set g am r0) v = true -> computable g am r0 v.
   Proof.
-    apply dep_okb_computable. unfold computable_set. apply iter_fired_ok. apply fired_ok_nil.
+    apply dep_okb_computable. unfold computable_set. fold round. rewrite citer_fix_eq. apply iter_fired_ok. apply fired_ok_nil.
   Qed.
 End Comp.
 
